@@ -15,6 +15,7 @@ EXHAUSTIVE = {"quick": False, "thorough": False}
 
 RESPONSES = [("y", "num"), ("z", "num"), ("f", "cat"), ("c", "cat"), ("o", "cat"), ("k", "num"),
              ("f[b]", "level"), ("f['b']", "level"), ('g["q"]', "level"), ("o[mid]", "level"), ("c['mm']", "level"),
+             ("f[nolevel]", "level"), ("f['zzz']", "level"), ("o['absent']", "level"), ("g[t]", "level"),
              ("I(y * 2)", "expr"), ("{y + 1}", "expr"), ("center(y)", "call"), ("C(k)", "catcall"),
              ("prop(succ, n_trials)", "prop"), ("p(succ, 30)", "prop"), ("proportion(succ, n_trials)", "prop"),
              ("y:x", "bad"), ("y + z", "bad"), ("(y|g)", "bad"), ("1", "bad"), ("offset(y)", "bad")]
